@@ -17,16 +17,33 @@ Definition txn_of (e : event) : option N :=
   | EHbSend _ s _ _ | EHbDeliver _ s _ _ _ | ELockSeen _ s _ => Some s
   end.
 
-Definition lext (T : N) (l l' : list event) : Prop := forall x, txn_of x = Some T -> (In x l' <-> In x l).
-Lemma lext_refl : forall T l, lext T l l. Proof. intros T l x _. tauto. Qed.
-Lemma lext_cons : forall T l e, txn_of e <> Some T -> lext T l (e :: l).
+(* the event kinds and record fields the invariants talk about *)
+Definition relev (e : event) : bool :=
+  match e with
+  | EPwSend _ _ _ _ _ _ _ _ _ | ECmSend _ _ _ _ | ERbSend _ _ _ | ERsSend _ _ _ _
+  | EPwReply _ _ _ _ | ECmReply _ _ _ _ _ | ECtsReply _ _ _ _ => true
+  | _ => false
+  end.
+Definition rel (f : fld) : bool :=
+  match f with
+  | FCalled | FCausal | FWm | FFb | FFb1 | FPwRep | FPwErr | FMinc | FRbTold | FHb | FPlPrim | FPlAny => false
+  | _ => true
+  end.
+
+Definition lext (T : N) (l l' : list event) : Prop :=
+  forall x, txn_of x = Some T -> relev x = true -> (In x l' <-> In x l).
+Lemma lext_refl : forall T l, lext T l l. Proof. intros T l x _ _. tauto. Qed.
+Lemma lext_cons : forall T l e, (txn_of e <> Some T \/ relev e = false) -> lext T l (e :: l).
 Proof.
-  intros T l e H x Hx. split; intros H1; [| right; auto]. destruct H1 as [H1 | H1]; auto. subst. contradiction.
+  intros T l e H x Hx Hr. split; intros H1; [| right; auto]. destruct H1 as [H1 | H1]; auto. subst.
+  destruct H; [contradiction | congruence].
 Qed.
 
 Record agree (s s' : sys) (T : N) : Prop := {
   a_k : forall k, kget s' T k = kget s T k;
-  a_c : getc s' T = getc s T;
+  a_c : forall f, rel f = true -> cn (getc s' T) f = cn (getc s T) f;
+  a_lm : c_lm (getc s' T) = c_lm (getc s T);
+  a_pwok : c_pwok (getc s' T) = c_pwok (getc s T);
   a_sent : lext T (s_sent s) (s_sent s');
   a_dlv : lext T (s_dlv s) (s_dlv s');
   a_cts : lext T (s_cts s) (s_cts s');
@@ -38,19 +55,19 @@ Section Frame.
   Variables (s s' : sys) (T : N).
   Hypothesis A : agree s s' T.
 
-  Lemma ag_F : forall f, F s' T f = F s T f. Proof. intros. unfold F. rewrite (a_c _ _ _ A). auto. Qed.
-  Lemma ag_hasm : hasm s' T <-> hasm s T. Proof. unfold hasm. rewrite ag_F. tauto. Qed.
-  Lemma ag_prim : prim s' T = prim s T. Proof. unfold prim. apply ag_F. Qed.
-  Lemma ag_lm : lm s' T = lm s T. Proof. unfold lm. rewrite (a_c _ _ _ A). auto. Qed.
-  Lemma ag_pwok : pwok s' T = pwok s T. Proof. unfold pwok. rewrite (a_c _ _ _ A). auto. Qed.
-  Lemma ag_sent : forall x, txn_of x = Some T -> In x (s_sent s') -> In x (s_sent s).
-  Proof. intros x H. apply (a_sent _ _ _ A x H). Qed.
-  Lemma ag_sent' : forall x, txn_of x = Some T -> In x (s_sent s) -> In x (s_sent s').
-  Proof. intros x H. apply (a_sent _ _ _ A x H). Qed.
-  Lemma ag_dlv : forall x, txn_of x = Some T -> In x (s_dlv s') -> In x (s_dlv s).
-  Proof. intros x H. apply (a_dlv _ _ _ A x H). Qed.
-  Lemma ag_dlv' : forall x, txn_of x = Some T -> In x (s_dlv s) -> In x (s_dlv s').
-  Proof. intros x H. apply (a_dlv _ _ _ A x H). Qed.
+  Lemma ag_F : forall f, rel f = true -> F s' T f = F s T f. Proof. intros. unfold F. apply (a_c _ _ _ A). auto. Qed.
+  Lemma ag_hasm : hasm s' T <-> hasm s T. Proof. unfold hasm. rewrite ag_F by reflexivity. tauto. Qed.
+  Lemma ag_prim : prim s' T = prim s T. Proof. unfold prim. apply ag_F. reflexivity. Qed.
+  Lemma ag_lm : lm s' T = lm s T. Proof. unfold lm. apply (a_lm _ _ _ A). Qed.
+  Lemma ag_pwok : pwok s' T = pwok s T. Proof. unfold pwok. apply (a_pwok _ _ _ A). Qed.
+  Lemma ag_sent : forall x, txn_of x = Some T -> relev x = true -> In x (s_sent s') -> In x (s_sent s).
+  Proof. intros x H R. apply (a_sent _ _ _ A x H R). Qed.
+  Lemma ag_sent' : forall x, txn_of x = Some T -> relev x = true -> In x (s_sent s) -> In x (s_sent s').
+  Proof. intros x H R. apply (a_sent _ _ _ A x H R). Qed.
+  Lemma ag_dlv : forall x, txn_of x = Some T -> relev x = true -> In x (s_dlv s') -> In x (s_dlv s).
+  Proof. intros x H R. apply (a_dlv _ _ _ A x H R). Qed.
+  Lemma ag_dlv' : forall x, txn_of x = Some T -> relev x = true -> In x (s_dlv s) -> In x (s_dlv s').
+  Proof. intros x H R. apply (a_dlv _ _ _ A x H R). Qed.
   Lemma ag_pwdlv : forall k, pwdlv s' T k <-> pwdlv s T k.
   Proof.
     intros k. unfold pwdlv. split; intros [r [ks [m [o [H1 H2]]]]]; exists r, ks, m, o; split; auto.
@@ -60,23 +77,23 @@ Section Frame.
   Lemma ag_some_rb : some_rb s' T <-> some_rb s T.
   Proof. unfold some_rb. rewrite ag_lm. split; intros [k [H1 H2]]; exists k; split; auto; rewrite (a_k _ _ _ A) in *; auto. Qed.
   Lemma ag_Dn : Dn s' T <-> Dn s T.
-  Proof. unfold Dn. rewrite !ag_F, ag_some_rb. tauto. Qed.
+  Proof. unfold Dn. rewrite !ag_F by reflexivity. rewrite ag_some_rb. tauto. Qed.
   Lemma ag_Dd : Dd s' T <-> Dd s T.
   Proof.
-    unfold Dd, closed, NS. rewrite !ag_F, ag_prim, ag_lm, (a_k _ _ _ A).
+    unfold Dd, closed, NS. rewrite !ag_F by reflexivity. rewrite ag_prim, ag_lm, (a_k _ _ _ A).
     split; (intros [H | [H | [k [H1 [H2 H3]]]]]; [left; auto | right; left; auto | right; right; exists k]).
     - rewrite (a_k _ _ _ A) in H2. rewrite ag_pwdlv in H3. auto.
     - rewrite (a_k _ _ _ A). rewrite ag_pwdlv. auto.
   Qed.
   Lemma ag_classic : classic s' T <-> classic s T.
   Proof.
-    unfold classic. rewrite !ag_F. split; intros [H1 [H2 H3]]; repeat split; auto; intros c Hc; apply (H3 c);
+    unfold classic. rewrite !ag_F by reflexivity. split; intros [H1 [H2 H3]]; repeat split; auto; intros c Hc; apply (H3 c);
       apply (a_rs _ _ _ A); auto.
   Qed.
 
   Lemma frame_ginv : ginv s T -> ginv s' T.
   Proof.
-    intros G. constructor; intros; rewrite ?ag_F, ?(a_k _ _ _ A), ?ag_prim in *.
+    intros G. constructor; intros; rewrite ?(a_k _ _ _ A), ?ag_prim in *; repeat rewrite ag_F in * by reflexivity.
     - eapply g_pw; eauto. apply ag_dlv; eauto.
     - eapply g_cm; eauto. apply ag_dlv; eauto.
     - eapply g_cts_c; eauto. apply ag_dlv; eauto.
@@ -97,11 +114,12 @@ Section Frame.
     - eapply g_rb_dead; eauto. apply ag_sent; eauto.
     - apply ag_pwdlv. apply (g_pwok _ _ G). rewrite <- ag_pwok. auto.
     - apply (g_told_dead _ _ G); auto.
+    - apply (g_1pcts _ _ G); auto.
   Qed.
 
   Lemma frame_tinv : tinv s T -> tinv s' T.
   Proof.
-    intros I. constructor; intros; rewrite ?ag_F, ?ag_prim, ?ag_lm, ?ag_pwok, ?(a_k _ _ _ A), ?ag_Dn, ?ag_Dd, ?ag_some_rb in *.
+    intros I. constructor; intros; rewrite ?ag_prim, ?ag_lm, ?ag_pwok, ?(a_k _ _ _ A), ?ag_Dn, ?ag_Dd, ?ag_some_rb in *; repeat rewrite ag_F in * by reflexivity.
     - apply (t_prim_lm _ _ I).
     - apply (t_cnt _ _ I).
     - apply (t_pwok _ _ I); auto.
@@ -117,7 +135,6 @@ Section Frame.
     - apply (t_told_err _ _ I); auto.
     - eapply t_rb_dead; eauto.
     - apply (t_told_ok _ _ I); auto.
-    - apply (t_1pcts _ _ I).
   Qed.
 
   Lemma frame_inv : ginv s T /\ (hasm s T -> classic s T -> tinv s T) ->
